@@ -218,6 +218,26 @@ Qed.
 Theorem C08_binary64_min_probability_below_ok : forall p : P F64, okb p = true -> @ple F64 0%float p = true.
 Proof. exact queue_binary64_min_probability. Qed.
 
+(* ... hence the sentence for binary64 objects (flit = the identity) without a hypothesis on the literals *)
+Theorem C08_suffix_and_repeats_queue_binary64 :
+  forall (up : P F64) (un : var * nat) (ui : item F64) (rs : ruleset F64)
+         (push push' : heap F64 -> item F64 -> heap F64) (pop pop' : heap F64 -> option (item F64 * heap F64))
+         (fuel fuel' : nat) (cfg0 : config F64) (k : nat) (U1 : list (item F64)) (x : item F64) (U2 : list (item F64)),
+  wf rs -> push_ok push -> push_ok push' -> pop_ok_okb pop -> pop_ok_okb pop' ->
+  (forall it, In it (init_items rs) -> restore_fuel rs it <= fuel') ->
+  rev (fst (@py_session F64 up un ui (fun f => f) push pop fuel rs None (total rs))) = U1 ++ x :: U2 ->
+  fst (@py_session F64 up un ui (fun f => f) push pop fuel rs None k) = x :: rev U1 ->
+  let cfg := py_PcfgQueue_update_save_config (snd (@py_session F64 up un ui (fun f => f) push pop fuel rs None k)) cfg0 in
+  let m := iprob x in
+  let B := fst (@py_session F64 up un ui (fun f => f) push' pop' fuel' rs (Some cfg)
+                            (length (filter (below m) (all_preterminals rs)))) in
+  (forall y, In y (x :: U2) -> In y B) /\
+  (forall y, In y B -> ple (iprob y) m = true) /\
+  NoDup B /\
+  (forall y, In y B -> In y U1 -> peq (iprob y) m = true) /\
+  nonincreasing (rev B).
+Proof. exact queue_suffix_and_repeats_F64. Qed.
+
 (* non-vacuity: the demo ruleset, a list heap; a session quit after 7 pops, saved, restored, run *)
 Theorem C08_queue_hypotheses_satisfiable :
   wf demo_rs /\ push_ok (@list_push F64) /\ pop_ok_okb (@pop_first_max F64) /\
